@@ -220,7 +220,7 @@ def shard(n, seed, known, max_steps):
 
 def run(ctx):
     jobs = [(k, core.subseed(ctx.seed, "p", i), ctx.known_sigs, ctx.n(12, 20))
-            for i, k in enumerate(core.split(ctx.n(400, 8000), 16))]
+            for i, k in enumerate(core.split(ctx.n(1200, 12000), 16))]
     stats = core.Stats()
     for s in core.pmap(shard, jobs):
         stats.merge(s)
